@@ -145,7 +145,12 @@ func (fv *FV) loadLoc(st *State, l *Loc) string {
 		return fv.freshConst("arr", "Int")
 	}
 	f := fv.fams[l.fam]
-	return fv.read(st, f, l.args...)
+	t := fv.read(st, f, l.args...)
+	if strings.HasPrefix(l.fam, "SE|") && fv.eng.nonNilElems[l.fam[3:]] && !l.localArray {
+		fv.assume(st, sx("distinct", t, "0"))
+		fv.used("element type invariant: in-bounds elements of []" + l.fam[3:] + " are non-nil (checked at every store)")
+	}
+	return t
 }
 
 func (fv *FV) storeLoc(st *State, l *Loc, val string) {
@@ -161,18 +166,29 @@ func (fv *FV) storeLoc(st *State, l *Loc, val string) {
 	}
 	f := fv.fams[l.fam]
 	fv.frameCheck(st, f, l.args, "store")
+	if strings.HasPrefix(l.fam, "SE|") && fv.eng.nonNilElems[l.fam[3:]] {
+		pos := token.NoPos
+		if fv.curInstr != nil {
+			pos = fv.curInstr.Pos()
+		}
+		fv.oblige(st, "nonnil-elem", fv.srcLabel(pos, "store"), sx("distinct", val, "0"), pos, nil)
+	}
 	fv.write(st, f, l.args, val)
 }
 
 func (fv *FV) faRef(structT types.Type, idx int, r string) string {
 	st := structT.Underlying().(*types.Struct)
 	name := fv.eng.derivedFn("fa", typeKey(structT)+"."+st.Field(idx).Name(), 1)
-	return sx(name, r)
+	t := sx(name, r)
+	fv.rootOf[t] = r
+	return t
 }
 
 func (fv *FV) eaRef(elemT types.Type, base, idx string) string {
 	name := fv.eng.derivedFn("ea", typeKey(elemT), 2)
-	return sx(name, base, idx)
+	t := sx(name, base, idx)
+	fv.rootOf[t] = base
+	return t
 }
 
 func (fv *FV) loadField(st *State, r string, structT types.Type, idx int) string {
@@ -271,7 +287,7 @@ func (fv *FV) exec(st *State, ins ssa.Instruction) {
 	case *ssa.ChangeInterface:
 		fv.setVal(x, fv.val(st, x.X))
 	case *ssa.ChangeType:
-		fv.setVal(x, fv.val(st, x.X))
+		fv.setVal(x, fv.convStruct(fv.val(st, x.X), x.X.Type(), x.Type()))
 		if l, ok := fv.ptrs[x.X]; ok {
 			fv.ptrs[x] = l
 		}
@@ -336,7 +352,19 @@ func (fv *FV) exec(st *State, ins ssa.Instruction) {
 	case *ssa.Call:
 		fv.execCall(st, x, x)
 	case *ssa.Defer:
-		fv.deferred = append(fv.deferred, x)
+		found := false
+		for _, d := range fv.deferred {
+			if d == x {
+				found = true
+			}
+		}
+		if !found {
+			fv.deferred = append(fv.deferred, x)
+		}
+		if st.armed == nil {
+			st.armed = map[*ssa.Defer]string{}
+		}
+		st.armed[x] = "true"
 	case *ssa.RunDefers:
 		fv.execRunDefers(st)
 	case *ssa.Go:
@@ -561,10 +589,33 @@ func (fv *FV) execConvert(st *State, x *ssa.Convert) {
 	default:
 		if fv.u.sortOf(from) == fv.u.sortOf(to) && !isFloat(from) && !isFloat(to) {
 			fv.setVal(x, v)
+		} else if _, ok := from.Underlying().(*types.Struct); ok {
+			fv.setVal(x, fv.convStruct(v, from, to))
 		} else {
 			fv.bindFresh(st, x)
 		}
 	}
+}
+
+// convStruct converts a struct value between two named types with identical underlying types.
+func (fv *FV) convStruct(v string, from, to types.Type) string {
+	fs, ok1 := from.Underlying().(*types.Struct)
+	ts, ok2 := to.Underlying().(*types.Struct)
+	if !ok1 || !ok2 {
+		return v
+	}
+	sf, stt := fv.u.sortOf(from), fv.u.sortOf(to)
+	if sf == stt {
+		return v
+	}
+	if ts.NumFields() == 0 {
+		return "mk-" + stt
+	}
+	var args []string
+	for i := 0; i < ts.NumFields() && i < fs.NumFields(); i++ {
+		args = append(args, fv.convStruct(sx(fmt.Sprintf("%s.%d", sf, i), v), fs.Field(i).Type(), ts.Field(i).Type()))
+	}
+	return sx("mk-"+stt, args...)
 }
 
 func (fv *FV) execFieldAddr(st *State, x *ssa.FieldAddr) {
@@ -626,7 +677,8 @@ func (fv *FV) execIndexAddr(st *State, x *ssa.IndexAddr) {
 		return
 	}
 	f := fv.elemFam(elemT)
-	fv.ptrs[x] = &Loc{fam: f.Key, args: []string{base, pos}, ty: elemT}
+	_, isArr := x.X.Type().Underlying().(*types.Pointer)
+	fv.ptrs[x] = &Loc{fam: f.Key, args: []string{base, pos}, ty: elemT, localArray: isArr}
 	fv.setVal(x, fv.eaRef(elemT, base, pos))
 }
 
@@ -713,6 +765,9 @@ func (fv *FV) execMakeSlice(st *State, x *ssa.MakeSlice) {
 	fv.oblige(st, "makeslice", fv.srcLabel(x.Pos(), "make"), and(sx("<=", "0", n), sx("<=", n, c)), x.Pos(), nil)
 	r := fv.alloc(st)
 	elem := x.Type().Underlying().(*types.Slice).Elem()
+	if fv.eng.nonNilElems[typeKey(elem)] {
+		fv.oblige(st, "nonnil-elem", fv.srcLabel(x.Pos(), "make"), eq(n, "0"), x.Pos(), nil)
+	}
 	if est, ok := elem.Underlying().(*types.Struct); ok {
 		_ = est
 		// struct elements: zero through derived refs is not expanded; fields read as arbitrary
@@ -877,10 +932,29 @@ func (fv *FV) execPhi(st *State, x *ssa.Phi) {
 }
 
 func (fv *FV) execRunDefers(st *State) {
-	// deferred calls run LIFO; only unconditional defers outside loops are supported
+	// deferred calls run LIFO (approximated by reverse program order); a defer statement
+	// that was not reached on this path is skipped (path-sensitive "armed" flag)
 	for i := len(fv.deferred) - 1; i >= 0; i-- {
 		d := fv.deferred[i]
-		fv.execCall(st, d, nil)
+		armed, ok := st.armed[d]
+		if !ok || armed == "false" {
+			continue
+		}
+		if armed == "true" {
+			fv.execCall(st, d, nil)
+			continue
+		}
+		yes := st.clone()
+		yc := fv.freshConst("dfy", "Bool")
+		fv.assumeGlobal(eq(yc, and(st.reach, armed)))
+		yes.reach = yc
+		fv.execCall(yes, d, nil)
+		no := st.clone()
+		nc := fv.freshConst("dfn", "Bool")
+		fv.assumeGlobal(eq(nc, and(st.reach, not(armed))))
+		no.reach = nc
+		m := fv.merge("defer", []*State{yes, no})
+		*st = *m
 	}
 }
 
@@ -888,8 +962,8 @@ func (fv *FV) execRunDefers(st *State) {
 func (fv *FV) havocAll(st *State, why string) {
 	for _, k := range fv.famOrder {
 		f := fv.fams[k]
-		if strings.HasPrefix(k, "G|ghost") {
-			continue
+		if strings.HasPrefix(k, "GL|") {
+			continue // ghost lock state changes only through Lock/Unlock
 		}
 		fv.havocFamily(st, f, "true")
 	}
